@@ -78,7 +78,9 @@ def check_chain(run, db):
         resets = [f for f in fns if f.short == 'reset']
         for f in creates:
             n += 1
-            S = [s for s in fwd.summarize(f, db=db, roles={0: 'additional_size'}) if s.end == 'return']
+            # static / private helpers of joint_ptr (an extracted placement-new) are seen through
+            S = [s for s in fwd.summarize(f, db=db, roles={0: 'additional_size'}, inline_pred=lambda fn, callee, t: callee.cls == fn.cls and callee.key != fn.key
+                                          and len(callee.blocks) <= 12 and callee.short not in ('deallocate_node', 'allocate_node', 'get', 'operator*', 'operator->')) if s.end == 'return']
             okk = False
             why = 'no allocation'
             for s in S:
